@@ -484,7 +484,7 @@ static void RegPrefix(
         SimpleNextAddress(pInfo, Address);
         as_snprintf(
                 pInfo->SrcLine, sizeof(pInfo->SrcLine), "ld\tsp,%s",
-                Reg16Names[Opcode & 3]);
+                Reg16Names[SrcRegIndex]);
         break;
     case 0xfb:
         if (SrcRegIndex > 3) {
@@ -494,7 +494,7 @@ static void RegPrefix(
         SimpleNextAddress(pInfo, Address);
         as_snprintf(
                 pInfo->SrcLine, sizeof(pInfo->SrcLine), "ld\t%s,sp",
-                Reg16Names[Opcode & 3]);
+                Reg16Names[SrcRegIndex]);
         break;
     case 0xfc:
         if (SrcRegIndex > 3) {
@@ -504,7 +504,7 @@ static void RegPrefix(
         SimpleNextAddress(pInfo, Address);
         as_snprintf(
                 pInfo->SrcLine, sizeof(pInfo->SrcLine), "call\t%s",
-                Reg16Names[Opcode & 3]);
+                Reg16Names[SrcRegIndex]);
         pInfo->pRemark = "indirect jump, investigate here";
         break;
     case 0xfe:
@@ -513,7 +513,7 @@ static void RegPrefix(
         }
         pInfo->CodeLen = PrefixLen + 1;
         as_snprintf(
-                pInfo->SrcLine, sizeof(pInfo->SrcLine), "jp\t%s", Reg16Names[Opcode & 3]);
+                pInfo->SrcLine, sizeof(pInfo->SrcLine), "jp\t%s", Reg16Names[SrcRegIndex]);
         pInfo->pRemark = "indirect jump, investigate here";
         break;
     default:
